@@ -443,6 +443,12 @@ impl<VM: VMBinding> MarkCompactSpace<VM> {
         debug!("Compact end: to = {}", to);
 
         // reset the bump pointer
+        #[cfg(feature = "mmtk_verif")]
+        crate::verif::gc::ev(
+            crate::verif::gc::Kind::PrResetCursor,
+            crate::verif::gc::space_tag(self.get_name(), self.pr.reserved_pages()),
+            to.as_usize(),
+        );
         self.pr.reset_cursor(to);
     }
 }
